@@ -2,6 +2,7 @@ SPECIFICATION SimSpec
 CONSTANTS
   CKeys = {"k1", "k2", "kn1"}
   CfgTenant <- CfgTenantNs
+  InstTenant <- InstTenantNs
   Contents = {"a", "b", "c"}
   NsIds = {"n1", "n2"}
   NsNames = {"x", "y", "", "<e>"}
@@ -10,7 +11,7 @@ CONSTANTS
   SKeys = {"s1", "s2"}
   CTypes = {"", "json", "yaml"}
   CDescs = {"", "d1", "<e>"}
-  IKeys = {"s1:10.0.0.1:80", "s1:10.0.0.2:80", "s2:10.0.0.1:81"}
+  IKeys = {"s1:10.0.0.1:80", "s1:10.0.0.2:80", "s2:10.0.0.1:81", "sn2:10.0.0.1:82"}
   IWeights = {2, 3}
   CaKeys = {"c1", "c2"}
   CaVals = {"cv", "cw"}
